@@ -58,7 +58,7 @@ def execute(sc):
     watch(T, 'T')
     mode = sc['target']
     ctl.log('Config', target=mode, ncallers=len(sc['callers']))
-    state = {'ready': mode == 'idle', 'done': 0}
+    state = {'ready': mode in ('idle', 'idle_then_lit'), 'done': 0}
 
     def make_aw(cs, loop_for_objects):
         c = cs['c']
@@ -152,17 +152,23 @@ def execute(sc):
             T.close()
             state['ready'] = True
             ctl.unblock(state)
-        elif mode == 'lit':
+        elif mode in ('lit', 'idle_then_lit'):
+            if mode == 'idle_then_lit' and sc.get('lit_at', 0) > 0:
+                ctl.sleep(sc['lit_at'])       # callers already use the idle loop when loop_in_thread is called
             stop = A.loop_in_thread(T)
             ctl.log('LITReturned', running=bool(T.is_running()))
             state['ready'] = True
             ctl.unblock(state)
-        if mode == 'lit':
+        if mode in ('lit', 'idle_then_lit'):
             # stop once every caller is finished (or at stop_at, whichever is later)
             if sc.get('stop_at', 0) > 0:
                 ctl.sleep(sc['stop_at'])
-            while state['done'] < len(sc['callers']):
-                ctl.block(state)
+            if mode == 'lit':
+                while state['done'] < len(sc['callers']):
+                    ctl.block(state)
+            # (idle_then_lit: stop at the given time whether or not the callers are done: a caller that chose the
+            #  idle path just before the loop was started waits for the loop's lock until the loop is stopped)
+            ctl.log('StopCalled')
             stop()
             ctl.log('StopReturned', running=bool(T.is_running()))
 
